@@ -79,8 +79,13 @@ def gen_case(seed):
     steps = []
     n = len(recipes)
     for _ in range(r.randint(6, 24)):
-        a = r.choice(["construct", "construct", "construct", "construct", "drop", "drop", "gc", "pickle", "copy", "reinterpret", "realloc"])
-        if a == "construct":
+        a = r.choice(["construct", "construct", "construct", "construct", "drop", "drop", "gc", "pickle", "copy", "reinterpret", "realloc", "reject"])
+        if a == "reject":
+            # a malformed request that compares equal to a valid one (float sizes, a list shape, a negative size)
+            ds = [i for i, rec in enumerate(recipes) if rec[0] in ("Bint", "Reals")]
+            if ds:
+                steps.append(["reject", r.choice(ds), r.choice(["float", "negative", "float", "str"])])
+        elif a == "construct":
             steps.append(["construct", r.randrange(n), r.choice(INTERPS)])
         elif a == "gc":
             steps.append(["gc"])
@@ -264,6 +269,12 @@ def requested_args_ok(w, recipes, i, obj):
         return obj.name == rec[1]
     if k == "Number" and isinstance(obj, Number):
         return obj.data == rec[1]
+    if k in ("Bint", "Reals"):
+        want_shape = () if k == "Bint" else tuple(rec[1])
+        want_dtype = rec[1] if k == "Bint" else "real"
+        name = f"Bint[{rec[1]}]" if k == "Bint" else "Reals[{}]".format(",".join(map(str, rec[1])))
+        return (tuple(obj.shape) == want_shape and all(type(s_) is int for s_ in obj.shape) and obj.dtype == want_dtype
+                and type(obj.dtype) is type(want_dtype) and repr(obj) == name)
     if k == "Op":
         kind, params = rec[1], rec[2]
         d = dict(obj.defaults)
@@ -462,6 +473,22 @@ class C07(Prop):
                             track(w, key, obj)
                     except TypeError:
                         pass
+                elif act == "reject":
+                    from funsor.domains import Bint as _Bint, Reals as _Reals
+
+                    rec = recipes[step[1]]
+                    try:
+                        if rec[0] == "Bint":
+                            bad = {"float": float(rec[1]), "negative": -rec[1], "str": str(rec[1])}[step[2]]
+                            _Bint[bad]
+                        else:
+                            shp = list(rec[1])
+                            bad = {"float": tuple(float(s_) for s_ in shp), "negative": tuple([-shp[0]] + shp[1:]), "str": tuple(map(str, shp))}[step[2]]
+                            _Reals[bad]
+                        stt.count("malformed-domain-accepted")
+                    except Exception:
+                        stt.count("malformed-domain-rejected")
+                    nt = True
                 elif act == "drop":
                     i = step[1]
                     if i in w.handles:
